@@ -129,7 +129,8 @@ class ParsingFrontend(Serialize):
     def _make_lexer_thread(self, text: Optional[LarkInput]) -> Union[LarkInput, LexerThread, None]:
         cls = (self.options and self.options._plugins.get('LexerThread')) or LexerThread
         if self.skip_lexer:
-            return text
+            # The dynamic lexers scan the text themselves; parse() only lets complete slices through
+            return text.text if isinstance(text, TextSlice) else text
         if text is None:
             return cls(self.lexer, None)
         if isinstance(text, (str, bytes, TextSlice)):
